@@ -1,17 +1,20 @@
 #!/bin/bash
-# For every seeded change: is it caught by its own property's quick check also for other base seeds?
+# tools/own_prop_robustness.sh [seed-name...]   (OWN_SEEDS="2 3 4" by default, OWN_TARGET=<cargo target dir>)
+# For every (or each given) seeded change: is it caught by its own property's quick check also for other base seeds?
 HERE="$(cd "$(dirname "$0")/.." && pwd)"
 SCR=$(mktemp -d /tmp/orx-own-XXXXXX); mkdir -p "$SCR/evidence" "$SCR/replays"; cp "$HERE/known_findings.json" "$SCR/"
-for D in "$HERE"/seeded/*; do
+NAMES=("$@"); [ ${#NAMES[@]} -eq 0 ] && NAMES=($(ls "$HERE/seeded"))
+for N0 in "${NAMES[@]}"; do
+  D="$HERE/seeded/$N0"
   N=$(basename "$D"); P=$(jq -r .property "$D/meta.json")
   WT=$(mktemp -d /tmp/orx-ownwt-XXXXXX)
   git -C /repo worktree add -q --detach "$WT" HEAD || continue
   if git -C "$WT" apply "$D/patch.diff"; then
     for S in ${OWN_SEEDS:-2 3 4}; do
-      OUT=$(VERIF_SEED=$S VERIF_REPO="$WT" VERIF_TARGET_DIR=/tmp/orxsim-own-target VERIF_OUT_DIR="$SCR" "$HERE/check" "$P" quick 2>&1); RC=$?
+      OUT=$(VERIF_SEED=$S VERIF_REPO="$WT" VERIF_TARGET_DIR="${OWN_TARGET:-/tmp/orxsim-own-target}" VERIF_OUT_DIR="$SCR" "$HERE/check" "$P" quick 2>&1); RC=$?
       echo "OWN $N $P seed=$S rc=$RC $(echo "$OUT" | head -1 | sed 's/.*seed [0-9]*, //' | cut -c1-40)"
     done
   else echo "OWN $N: patch does not apply"; fi
   git -C /repo worktree remove --force "$WT" >/dev/null 2>&1; rm -rf "$WT"
 done
-rm -rf "$SCR" /tmp/orxsim-own-target
+rm -rf "$SCR" "${OWN_TARGET:-/tmp/orxsim-own-target}"
